@@ -55,5 +55,7 @@ func init() {
 		r.Rules = append(r.Rules, "BFS over Init/Shutdown by 3 accounts (one under-funded) x collateral-price changes x NextBlock; a state is distinct by the full storage+bank stores, header and model; non-trivial = first reached by an accepted state-changing event")
 		r.Assumptions = append(r.Assumptions, "price alphabet {p, 2p, p/2}; 3 registrants", "seam A omits fees/signatures (zero-fee signed replay at seam B validates)")
 		r.AddExplore(C15{}, opts(tier, 10, 14, 40, 900, 150, 2000))
+		r.Rules = append(r.Rules, "volume: 99, 100, 101 and 130 providers registered at once (one page of a paginated store walk holds 100): escrow = sum and count of the collateral listing, also after a restart of the module from its exported genesis, then every provider shuts down and gets its collateral back")
+		r.AddEnum(c15VolumeEnum(), workers(), time.Time{})
 	}}
 }
